@@ -46,6 +46,9 @@ var strategies = map[string]stratCtor{
 		s := strend.NewDemaStrategy()
 		s.Dema1.Ema1.Period, s.Dema1.Ema2.Period = n[0], n[0]
 		s.Dema2.Ema1.Period, s.Dema2.Ema2.Period = n[1], n[1]
+		if len(n) >= 4 { // distinct periods for the second EMA of each DEMA
+			s.Dema1.Ema2.Period, s.Dema2.Ema2.Period = n[2], n[3]
+		}
 		return s
 	},
 	"Envelope": func(n []int, f []float64) strategy.Strategy {
